@@ -163,6 +163,10 @@ class SgzCropper(SgzReader):
             If indexes to crop on are missing, or do not align with the compression blocks
         """
 
+        if not self.structured:
+            # Header arrays of such files hold one entry per trace, not per grid position: they cannot be cut to a box
+            raise NotImplementedError("Cropping SGZ files made from irregular SEG-Y is not supported")
+
         iline_index_range, xline_index_range, zslices_index_range = self.check_and_correct_bounds(iline_index_range,
                                                                                                   xline_index_range,
                                                                                                   zslices_index_range)
